@@ -622,6 +622,26 @@ func streamSlice(seed uint64, idx int) caseT {
 		d := canonOf(map[string]interface{}{"a": arr})
 		lines = append(lines, "S "+hexField("a"+e1+" | "+e2)+" "+d, "S "+hexField("[a"+e1+", a"+e2+", a"+e1+"]")+" "+d)
 	}
+	if idx%5 == 0 {
+		// offset / limit idiom over an array WITH nulls: the left slice is a projection and drops them before the right
+		// slice counts positions
+		arr := make([]interface{}, n+3)
+		for i := range arr {
+			arr[i] = float64(i)
+			if i%3 == 1 || i == (idx/5)%(n+3) {
+				arr[i] = nil
+			}
+		}
+		abs := func(s string) string {
+			if s == "_" {
+				return ""
+			}
+			return strings.TrimPrefix(s, "-")
+		}
+		d := canonOf(map[string]interface{}{"a": arr})
+		lines = append(lines, "S "+hexField("a["+abs(a)+":] | [:"+abs(b)+"]")+" "+d, "S "+hexField("a["+abs(a)+":"+abs(c)+"] | ["+abs(b)+":]")+" "+d,
+			"S "+hexField("a[:"+abs(b)+"] | ["+abs(a)+":"+abs(c)+"] | [0]")+" "+d)
+	}
 	if idx%13 == 0 { // a slice inside the right-hand side of a slice projection, and slices of slices
 		rows := make([]interface{}, n)
 		for i := range rows {
